@@ -104,6 +104,8 @@ impl MemoryPool {
 
     /// Try to allocate memory
     pub fn try_allocate(&self, size: usize) -> Option<MemoryReservation<'_>> {
+        #[cfg(feature = "verif-hooks")]
+        crate::verif::yield_point(1);
         let mut current = self.used.load(Ordering::Relaxed);
         loop {
             let new_usage = current.checked_add(size)?;
@@ -111,6 +113,8 @@ impl MemoryPool {
                 return None;
             }
 
+            #[cfg(feature = "verif-hooks")]
+            crate::verif::yield_point(2);
             match self.used.compare_exchange_weak(
                 current,
                 new_usage,
@@ -127,6 +131,8 @@ impl MemoryPool {
 
     /// Force allocate memory (may exceed limit)
     pub fn allocate(&self, size: usize) -> MemoryReservation<'_> {
+        #[cfg(feature = "verif-hooks")]
+        crate::verif::yield_point(3);
         self.used.fetch_add(size, Ordering::SeqCst);
         MemoryReservation { pool: self, size }
     }
@@ -147,6 +153,8 @@ impl MemoryPool {
     }
 
     fn release(&self, size: usize) {
+        #[cfg(feature = "verif-hooks")]
+        crate::verif::yield_point(6);
         self.used.fetch_sub(size, Ordering::SeqCst);
     }
 }
@@ -167,9 +175,13 @@ impl<'a> MemoryReservation<'a> {
     pub fn resize(&mut self, new_size: usize) {
         if new_size > self.size {
             let diff = new_size - self.size;
+            #[cfg(feature = "verif-hooks")]
+            crate::verif::yield_point(4);
             self.pool.used.fetch_add(diff, Ordering::SeqCst);
         } else {
             let diff = self.size - new_size;
+            #[cfg(feature = "verif-hooks")]
+            crate::verif::yield_point(5);
             self.pool.used.fetch_sub(diff, Ordering::SeqCst);
         }
         self.size = new_size;
